@@ -63,7 +63,7 @@ FIELD_OPS = [
     "dangling_input", "dup_output", "empty_name", "drop_type", "shuffle_nodes", "self_cycle", "bad_dtype", "bad_attr_type", "bad_dims", "ext_location",
     "ext_numbers", "dup_initializer", "dup_function", "dangling_output", "dup_graph_input", "dangling_device", "deep_nesting", "dup_value_info",
     "tensor_metadata", "missing_opset", "ref_attr", "sparse", "quant", "negative_dims", "string_tensor", "input_is_output", "sub_output_outer", "sub_output_outer", "sub_input_outer", "sub_init_outer", "output_is_initializer", "output_is_initializer",
-    "function_identity", "function_identity", "func_inner_shadow", "func_inner_shadow", "dup_keyed", "dup_keyed", "storage_field", "storage_field", "quant", "dim_expr", "bad_utf8_attr", "bad_utf8_attr",
+    "function_identity", "function_identity", "func_inner_shadow", "func_inner_shadow", "dup_keyed", "dup_keyed", "storage_field", "storage_field", "quant", "dim_expr", "bad_utf8_attr", "bad_utf8_attr", "sibling_scope", "sibling_scope",
 ]  # fmt: skip
 _IGNORED_PREFIXES = tuple(p for p in {sys.prefix, sys.base_prefix, "/repo", "/verif", "/venv", "/root/.pyenv", "/usr/lib/python3", "/usr/lib/python3.12", "/proc/self"} if p)
 
@@ -540,6 +540,24 @@ def damage_fields(p: onnx.ModelProto, opsl: list) -> None:
                 t.data_type = 1
                 t.dims.append(1)
                 t.raw_data = b"\x00\x00\x80?"
+        elif kind == "sibling_scope":
+            # a node with two bodies (If, or a list-of-graphs attribute): the LATER body reads a name that only the
+            # EARLIER one defines - not visible there, so it is a dangling name, never the sibling's value
+            done_ = False
+            for n2 in list(g.node)[::-1] + [x for gg in graphs for x in gg.node]:
+                bodies_ = [a2.g for a2 in n2.attribute if a2.HasField("g")] + [sg2 for a2 in n2.attribute for sg2 in a2.graphs]
+                if len(bodies_) < 2:
+                    continue
+                for bi in range(1, len(bodies_)):
+                    earlier = [o for m2 in bodies_[bi - 1].node for o in m2.output if o]
+                    later_nodes = [m2 for m2 in bodies_[bi].node if m2.input]
+                    if earlier and later_nodes:
+                        tgt = later_nodes[c % len(later_nodes)]
+                        tgt.input[a % len(tgt.input)] = earlier[c % len(earlier)]
+                        done_ = True
+                        break
+                if done_:
+                    break
         elif kind == "bad_utf8_attr" and n is not None:
             # byte strings that are not UTF-8 where text is expected: a STRINGS / STRING attribute (bytes fields in the
             # proto), on a node or as the default of a function attribute
@@ -743,6 +761,50 @@ def check_one(proto_bytes: bytes, scratch: str, seam: fsseam.FsSeam, use_load: b
                 if p_ is not None and p_.graph is not None and (v.is_graph_input() or v.is_graph_output() or v.is_initializer()) and v.graph is not p_.graph:
                     inv = {"clause": "owner-conflict", "detail": f"value {v.name!r} is an input/output/initializer of graph {getattr(v.graph, 'name', None)!r} but is produced by node {p_.name!r} of graph {getattr(p_.graph, 'name', None)!r}"}
                     break
+        if inv is None:
+            # scoping: a node reads values of its own graph or of a graph that ENCLOSES it - never of a sibling body or
+            # of a body nested elsewhere (a name that is not visible becomes a value owned by no graph)
+            parent: dict = {}
+            tops_ = [model.graph] + [f.graph for f in model.functions.values()]
+            todo_ = list(tops_)
+            seen_g = set()
+            while todo_:
+                g_ = todo_.pop()
+                if id(g_) in seen_g:
+                    continue
+                seen_g.add(id(g_))
+                for n_ in g_:
+                    for a_ in n_.attributes.values():
+                        if not isinstance(a_, ir.Attr) or a_.is_ref() or a_.value is None:
+                            continue
+                        subs_ = [a_.value] if a_.type == ir.AttributeType.GRAPH else (list(a_.value) if a_.type == ir.AttributeType.GRAPHS else [])
+                        for sg_ in subs_:
+                            parent.setdefault(id(sg_), g_)
+                            todo_.append(sg_)
+            for g_id in list(seen_g):
+                pass
+            def _encloses(outer, inner) -> bool:
+                hops = 0
+                while inner is not None and hops < 64:
+                    if inner is outer:
+                        return True
+                    inner = parent.get(id(inner))
+                    hops += 1
+                return False
+            for n_ in w.nodes:
+                g_ = n_.graph
+                if g_ is None or id(g_) not in seen_g:
+                    continue
+                for v_ in n_.inputs:
+                    if v_ is None:
+                        continue
+                    gv = v_.graph
+                    if gv is not None and id(gv) in seen_g and not _encloses(gv, g_):
+                        inv = {"clause": "value-from-foreign-scope", "detail": f"node {n_.name!r} of graph {getattr(g_, 'name', None)!r} reads value {v_.name!r}, which belongs to graph {getattr(gv, 'name', None)!r} - neither its own graph nor one that encloses it"}
+                        break
+                if inv is not None:
+                    break
+            inc("scopes_checked")
         if inv is None:
             # deserialization is a function of the proto alone: nothing reachable from the result predates this call
             _EPOCH["n"] += 1
